@@ -4,7 +4,7 @@ validation), known findings, evidence, reporting."""
 import fcntl, hashlib, json, os, re, shutil, signal, subprocess, sys, time
 
 VERIF = os.path.dirname(os.path.dirname(os.path.abspath(__file__)))
-REPO = '/repo'
+REPO = os.environ.get('VERIF_DEV_REPO') or '/repo'      # development only: background runs against a snapshot of the repository (vp run --with-repo)
 SPEC = os.path.join(VERIF, 'spec')
 HARNESS = os.path.join(VERIF, 'harness')
 # development only (coverage measurement of the harness, tools/coverage.sh): alternative scratch / evidence directory and binary
